@@ -238,3 +238,38 @@ contract(
     modifies=["n0.name", "n0.res_name", "n1.name", "n1.res_name", "n2.name", "n2.res_name", "n3.name", "n3.res_name"],
     name="apply_name_scheme", native=False, budget=20000,
 )
+
+
+# ---------------------------------------------------------------- HydrogenRoutines.cleanup: the spare acid hydrogen goes, nothing else
+# When no optimisation chose between them, a protonated ASP / GLU carries both candidate hydrogens; cleanup removes the
+# *1 one (the topology of ASH / GLH has *2 only) and touches nothing else - not a residue that has just one of them, not
+# a residue of another kind, not a water.
+def CRES(nm, cls, name, patches, atomnames):
+    return Named(nm, Obj(f"pdb2pqr.aa:{cls}", name=Const(name), patches=Items(*[Const(p) for p in patches]),
+                         atoms=Items(*[Ref(f"{nm}_{a.lower()}") for a in atomnames]),
+                         map=DictOf(*[(a, Named(f"{nm}_{a.lower()}", Obj("pdb2pqr.structures:Atom", name=Const(a), bonds=Items(),
+                                                                          x=Real, y=Real, z=Real))) for a in atomnames])))
+
+
+def names_of(res):
+    return [a.name for a in res.atoms]
+
+
+contract(
+    "pdb2pqr.hydrogens:HydrogenRoutines.cleanup", ["C03", "C02"],
+    params={"self": Obj("pdb2pqr.hydrogens:HydrogenRoutines", debumper=Obj("pdb2pqr.debump:Debump", biomolecule=Obj(
+        "pdb2pqr.biomolecule:Biomolecule", residues=Items(
+            CRES("ash", "ASP", "ASP", ["PEPTIDE", "ASH"], ["CG", "OD1", "OD2", "HD1", "HD2"]),
+            CRES("glh", "GLU", "GLH", [], ["CD", "HE1", "OE2", "HE2"]),
+            CRES("ash1", "ASP", "ASH", [], ["CG", "HD1"]),
+            CRES("asp", "ASP", "ASP", ["PEPTIDE"], ["CG", "HD1", "HD2"]),
+            Named("w", Obj("pdb2pqr.aa:WAT", name=Const("HOH"), patches=Items(), atoms=Items(), map=DictOf()))))))},
+    requires=[],
+    ensures=[
+        "names_of(ash) == ['CG', 'OD1', 'OD2', 'HD2'] and len(ash.map) == 4 and not ('HD1' in ash.map)",
+        "names_of(glh) == ['CD', 'OE2', 'HE2'] and len(glh.map) == 3 and not ('HE1' in glh.map)",
+        "names_of(ash1) == ['CG', 'HD1'] and names_of(asp) == ['CG', 'HD1', 'HD2']",
+    ],
+    modifies=["ash.atoms.*", "ash.map.*", "glh.atoms.*", "glh.map.*"],
+    name="cleanup", native=False,
+)
